@@ -37,10 +37,13 @@ type Pod struct {
 	// faults
 	NotReadyUntil    time.Time
 	UnreachableUntil time.Time
+	// TerminatingUntil: the pod carries a deletion timestamp (delete / eviction with a long grace period)
+	// while its containers still run and serve; a statefulset pod is recreated under the same name
+	TerminatingUntil time.Time
 	FileMode         bool
 	FileText         string // configuration text currently rolled out to this pod's file
 	ReloadFailUntil  time.Time
-	StalledUntil     time.Time // its Prometheus does not get round to scraping (overloaded / paused)
+	StalledUntil     time.Time  // its Prometheus does not get round to scraping (overloaded / paused)
 	EmptySince       *time.Time // harness' own knowledge of since when the pod scrapes nothing
 }
 
@@ -52,20 +55,20 @@ type Replica struct {
 
 // Cluster is the API-server stub plus the StatefulSet-controller stub.
 type Cluster struct {
-	Cli       *fake.Clientset
-	Reps      []*Replica
-	Net       *simnet.Net
-	Targets   *sidecarsim.Targets
-	BaseDir   string
-	StartLag  func() time.Duration // pod start delay (drawn by the sim loop, never here)
-	PodOrder  []int                // permutation applied to pod lists (drawn per cycle)
-	DeletePVC bool
-	Instant   bool
-	FileModeOf func(rep, ord int) bool
-	ConfigText func() string
-	OffsetFor  func(key string) time.Duration
-	Events     []string
-	FailVerb   string // injected API error: "", "update-sts", "get-sts", "list-pods"
+	Cli             *fake.Clientset
+	Reps            []*Replica
+	Net             *simnet.Net
+	Targets         *sidecarsim.Targets
+	BaseDir         string
+	StartLag        func() time.Duration // pod start delay (drawn by the sim loop, never here)
+	PodOrder        []int                // permutation applied to pod lists (drawn per cycle)
+	DeletePVC       bool
+	Instant         bool
+	FileModeOf      func(rep, ord int) bool
+	ConfigText      func() string
+	OffsetFor       func(key string) time.Duration
+	Events          []string
+	FailVerb        string // injected API error: "", "update-sts", "get-sts", "list-pods"
 	LastPodSelector string
 }
 
@@ -127,8 +130,12 @@ func NewCluster(base string, net *simnet.Net, targets *sidecarsim.Targets, nRep 
 					if !p.Running || time.Now().Before(p.NotReadyUntil) {
 						ip = ""
 					}
-					items = append(items, corev1.Pod{ObjectMeta: metav1.ObjectMeta{Name: p.Name, Namespace: ns, Labels: map[string]string{"sts": r.Name}},
-						Status: corev1.PodStatus{PodIP: ip}})
+					om := metav1.ObjectMeta{Name: p.Name, Namespace: ns, Labels: map[string]string{"sts": r.Name}}
+					if p.Running && time.Now().Before(p.TerminatingUntil) {
+						dt := metav1.NewTime(p.TerminatingUntil)
+						om.DeletionTimestamp = &dt
+					}
+					items = append(items, corev1.Pod{ObjectMeta: om, Status: corev1.PodStatus{PodIP: ip}})
 				}
 			}
 			// the API server may answer in any order: apply the drawn permutation
